@@ -30,7 +30,7 @@ DEVIATIONS = [None] + list(range(-720, 721))
 
 
 def plan(tier, seed):
-    return [{"n": N[tier], "k0": i * N[tier]} for i in range(16)]
+    return [{"n": N[tier], "k0": i * N[tier]} for i in range(16)] + [{"kind": "threads", "n": 40, "k": k} for k in range(4 if tier == "quick" else 16)]
 
 
 def build(position: str, dt12: bytes, rng, spec=None):
@@ -97,7 +97,54 @@ def check(position, dt12, spec, rng, ctx) -> None:
         ctx.violation(f"C10:{position}:{what}", f"date-time {dt12.hex()} at {position}: {problem}", case)
 
 
+def run_threads(shard, ctx) -> None:
+    """Six threads released from a barrier decode their FIRST date-times of this (fresh) interpreter at the same moment, then go on:
+    lazily filled shared tables and other first-use state must not change any result."""
+    import sys
+    import threading
+
+    from vf.ctx import Ctx
+
+    n_threads = 6
+    locals_ = [Ctx(ID, ctx.tier, ctx.seed, {"index": 1000 + shard["k"] * 10 + t}) for t in range(n_threads)]
+    barrier = threading.Barrier(n_threads)
+
+    def worker(c):
+        rng = c.rng("threads")
+        cases = []
+        for i in range(shard["n"]):
+            dt12, spec = dlms_gen.gen_datetime(rng)
+            if spec["deviation"] is None and i < 4:
+                y, mo, d, h, mi, s_ = spec["civil"]
+                dev = rng.choice((-60, 60, 120, 0, -720))
+                dt12 = ce.datetime12(y, mo, d, 1, h, mi, s_, spec["hundredths"], dev, spec["status"])
+                spec = dict(spec, deviation=dev, offset_min=-dev)
+            cases.append((POSITIONS[(i + shard["k"]) % 8], dt12, spec))
+        barrier.wait()
+        for position, dt12, spec in cases:
+            check(position, dt12, spec, rng, c)
+
+    old = sys.getswitchinterval()
+    sys.setswitchinterval(1e-6)
+    try:
+        threads = [threading.Thread(target=worker, args=(c,)) for c in locals_]
+        for t in threads:
+            t.start()
+        for t in threads:
+            t.join()
+    finally:
+        sys.setswitchinterval(old)
+    for c in locals_:
+        for v in c.violations:
+            ctx.violation(v["sig"] + ":under-concurrent-threads", v["msg"] + " (decoded in 6 threads at once, first decodes of the process)", v["case"])
+    ctx.count("datetimes_decoded_in_concurrent_threads", n_threads * shard["n"])
+    ctx.case(f"threads{shard['k']}", True, n_threads * shard["n"])
+
+
 def run(shard, ctx):
+    if shard.get("kind") == "threads":
+        run_threads(shard, ctx)
+        return
     rng = ctx.rng(ID)
     for i in range(shard["n"]):
         k = shard["k0"] + i
